@@ -193,7 +193,7 @@ type Sidecar struct {
 
 func NewSidecar(driver string, seed uint64, rule string) *Sidecar {
 	return &Sidecar{Driver: driver, Seed: seed, Rule: rule, Histogram: map[string]int{},
-		CaseIndex: map[string]interface{}{}, distinct: map[string]bool{}, Extra: map[string]interface{}{}}
+		OracleHits: []OracleHit{}, Samples: []interface{}{}, CaseIndex: map[string]interface{}{}, distinct: map[string]bool{}, Extra: map[string]interface{}{}}
 }
 
 func (s *Sidecar) Count(k string) { s.Histogram[k]++ }
